@@ -49,6 +49,7 @@ def _preamble():
 
 PRE = _preamble()
 
+SHARD = 1200   # cases per generated Coq file (coqc start-up dominates small shards)
 KNOWN_HEAD = 'C16.replace_worst.head_dropped_when_all_new_better'
 
 SEL = {'tournament': (SelectionTypesEnum.tournament, 'Tournament'), 'spea2': (SelectionTypesEnum.spea2, 'Spea2')}
@@ -234,7 +235,7 @@ def eval_selection(ctx, cases, group='selection'):
         terms.append(selection_coq(c, [[1, ['S', 0.5]], [1, ['S', 0.5]]]))
         ctx.canaries += 1
         canary = True
-    res = ctx.coq_cases(group, REQ, SEL_FN, terms, 2, preamble=PRE)
+    res = ctx.coq_cases(group, REQ, SEL_FN, terms, 2, preamble=PRE, shard=SHARD)
     if canary:
         if res[-1] == (False, False):
             ctx.canaries_caught += 1
@@ -341,7 +342,7 @@ def eval_elitism(ctx, cases, group='elitism'):
              'best': [[0, ['S', 0.5], 0]], 'new': [[0, ['S', 0.5], 0], [1, ['S', 1.0], 0]]}
         terms.append(elitism_coq(c, [[0, ['S', 0.5]], [0, ['S', 0.5]]]))
         ctx.canaries += 1
-    res = ctx.coq_cases(group, REQ, ELI_FN, terms, 4, preamble=PRE)
+    res = ctx.coq_cases(group, REQ, ELI_FN, terms, 4, preamble=PRE, shard=SHARD)
     if canary:
         if res[-1][0] is False and res[-1][1] is False:
             ctx.canaries_caught += 1
@@ -429,7 +430,7 @@ def eval_inheritance(ctx, cases, group='inheritance'):
              'new': [[0, ['S', 0.5], 0], [1, ['S', 1.0], 0]]}
         terms.append(inheritance_coq(c, [[0, ['S', 0.5]], [1, ['S', 1.0]]]))
         ctx.canaries += 1
-    res = ctx.coq_cases(group, REQ, INH_FN, terms, 2, preamble=PRE)
+    res = ctx.coq_cases(group, REQ, INH_FN, terms, 2, preamble=PRE, shard=SHARD)
     if canary:
         if res[-1] == (False, False):
             ctx.canaries_caught += 1
